@@ -150,6 +150,13 @@ where
             self.inner.event_enabled(event)
         } else {
             // otherwise, the event is disabled by this subscriber
+
+            // If per-subscriber filters are in use, and we are short-circuiting
+            // (the event will not be recorded), clear the current
+            // per-subscriber filter `enabled` state, as `enabled` does.
+            #[cfg(feature = "registry")]
+            filter::FilterState::clear_enabled();
+
             false
         }
     }
